@@ -16,6 +16,7 @@ RULE = ('cases = (table, back-end, algorithm run); runs = from_context default /
         'children / parents / descendants / ancestors of every index, cached top / bottom) for the default, CbO, '
         'Lindig in both directions and Sofia, compared with the end-to-end model and with the inclusion-order spec; '
         'the CbO sequences are also compared with the literal explicit-stack model; '
+        'contexts with homonymous objects / attributes (name views = position-wise images of the index views); '
         'a rename-history stream (context built under other names, warm-up construction, names re-assigned through '
         'the public setters, construction under test on the same object, judged against the model of the final '
         'context); every result is compared with the Coq model and, '
@@ -27,7 +28,10 @@ EXHAUSTIVE = {'thorough': 'all boolean tables of shape h x w with h, w <= 4 and 
                           'with h*w < 12 and rotated two per table on the 3x4 / 4x3 tables; one of the five '
                           'lattice runs per table, rotated; back-ends rotated'}
 ASSUMPTIONS = [
-    'tables have at least one row and one column; object / attribute names are distinct',
+    'tables have at least one row and one column; object / attribute names may repeat (about 30% of the named '
+    'cases have homonymous objects and/or attributes): name views must be the position-wise images of the index '
+    'views; from_objects by name resolves a homonymous name to its first occurrence (object_names.index), as '
+    'modelled; the argument of from_objects never lists the same name twice (it is a set)',
     "Sofia is run with min_supp = 0 and L_max >= the number of concepts (the generator's own count), "
     'half of the time exactly equal to it',
     "sort_concepts / the POSet built by from_context are not compared (from_context results are compared "
@@ -208,6 +212,10 @@ def stats(case):
             'algo': ALGO_NAMES[case['algo']] + ('' if case['algo'] not in (2, 8, 13) else ' ie=%s' % case['ie']),
             'backend': case['backend'], 'kind': case.get('kind', ''),
             'concepts': nc if nc < 8 else ('8-15' if nc < 16 else ('16-63' if nc < 64 else '>=64')),
+            'homonyms': ('objects+attributes' if len(set(case['onames'])) < len(case['onames'])
+                         and len(set(case['anames'])) < len(case['anames'])
+                         else 'objects' if len(set(case['onames'])) < len(case['onames'])
+                         else 'attributes' if len(set(case['anames'])) < len(case['anames']) else 'none'),
             'history': ('none' if not case.get('hist') else
                         'renamed %s after warm-up %s' % (case['hist']['rename'], ALGO_NAMES[case['hist']['warm'][0]])),
             'lmax': ('n/a' if case['algo'] not in (3, 7, 14) else
@@ -218,6 +226,24 @@ def _mk(backend, t, algo, ie=None, lmax=0, arg=(), flag=False, onames=None, anam
     return {'backend': backend, 'table': t, 'onames': onames if onames is not None else list(range(len(t))),
             'anames': anames if anames is not None else list(range(len(t[0]))),
             'algo': algo, 'ie': ie, 'lmax': lmax, 'arg': list(arg), 'flag': bool(flag), 'kind': kind}
+
+
+def dup_names(rng, ids, p=0.3):
+    """With probability p make some of the (distinct) ids coincide: homonymous objects / attributes."""
+    ids = list(ids)
+    if len(ids) >= 2 and rng.random() < p:
+        mode = rng.choice(['pair', 'pair', 'several', 'all'])
+        if mode == 'all':
+            ids = [ids[0]] * len(ids)
+        else:
+            for _ in range(1 if mode == 'pair' else rng.randint(2, len(ids))):
+                i, j = rng.sample(range(len(ids)), 2)
+                ids[j] = ids[i]
+    return ids
+
+
+def has_homonyms(case):
+    return len(set(case['onames'])) < len(case['onames']) or len(set(case['anames'])) < len(case['anames'])
 
 
 def _lmax(rng, t):
@@ -245,8 +271,8 @@ def table_cases(rng, t, kind, runs=LATTICE_RUNS_DEFAULT, n_from_objects=2, rotat
         lat = []          # the relations of every index against the cubic spec filters: keep lattices small
     k0 = rotate if rotate is not None else rng.randrange(5)
     runs = list(runs) + [lat[(k0 + j) % len(lat)] for j in range(min(n_lattice, len(lat)))]
-    onames = rng.sample(range(60), h) if names else list(range(h))
-    anames = rng.sample(range(60), w) if names else list(range(w))
+    onames = dup_names(rng, rng.sample(range(60), h)) if names else list(range(h))
+    anames = dup_names(rng, rng.sample(range(60), w)) if names else list(range(w))
     out = []
     for k, (a, ie) in enumerate(runs):
         b = BACKENDS[(rotate + k) % 3] if rotate is not None else rng.choice(BACKENDS)
@@ -258,7 +284,7 @@ def table_cases(rng, t, kind, runs=LATTICE_RUNS_DEFAULT, n_from_objects=2, rotat
         if rng.random() < 0.5:
             out.append(_mk(b, t, 9, arg=arg, flag=flag, onames=onames, anames=anames, kind=kind))
         else:
-            nm = [onames[i] for i in arg]
+            nm = list(dict.fromkeys(onames[i] for i in arg))   # an argument SET: no name twice
             if rng.random() < 0.1:
                 nm.insert(rng.randint(0, len(nm)), UNKNOWN + rng.randrange(3))
             out.append(_mk(b, t, 10, arg=nm, flag=flag, onames=onames, anames=anames, kind=kind))
@@ -285,8 +311,8 @@ def history_cases(rng, t, kind, n=1):
         if nc > LATTICE_CAP and a >= 11:
             a, ie = 1, None
         ids = rng.sample(range(60), 2 * (h + w))
-        onames, pre_on = ids[:h], ids[h:2 * h]
-        anames, pre_an = ids[2 * h:2 * h + w], ids[2 * h + w:]
+        onames, pre_on = dup_names(rng, ids[:h]), dup_names(rng, ids[h:2 * h])
+        anames, pre_an = dup_names(rng, ids[2 * h:2 * h + w]), dup_names(rng, ids[2 * h + w:])
         mode = rng.choice(['objs', 'attrs', 'both', 'both'])
         if mode == 'objs':
             pre_an = anames
